@@ -100,7 +100,7 @@ func runC19(c *vf.Ctx) {
 			i := next
 			next++
 			mu.Unlock()
-			if i >= len(runs) || c.Failed() {
+			if i >= len(runs) || c19Fails("correspondence") >= 5 {
 				return
 			}
 			execC19(c, d, runs[i])
@@ -110,6 +110,15 @@ func runC19(c *vf.Ctx) {
 	for _, run := range runs {
 		nops += len(run.cs.Ops)
 	}
+	c19FailMu.Lock()
+	if len(c19FailCount) > 0 {
+		fc := map[string]int{}
+		for k, v := range c19FailCount {
+			fc[k] = v
+		}
+		c.Set("failures_by_kind_and_class", fc)
+	}
+	c19FailMu.Unlock()
 	c.Set("histories", len(runs))
 	c.Set("operations", nops)
 
